@@ -56,18 +56,26 @@ type chainPool struct {
 	Jobs    int64
 	Blocks  int64
 	recycle int
+	bin     string
+	env     []string
 }
 
-func startWorker() (*chainWorker, error) {
+func startWorker() (*chainWorker, error) { return startWorkerWith("", nil) }
+
+// startWorkerWith: another worker binary (built with a seam: fake clock, controlled map order) and extra environment.
+func startWorkerWith(bin string, env []string) (*chainWorker, error) {
 	exe, err := os.Executable()
 	if err != nil {
 		return nil, err
+	}
+	if bin != "" {
+		exe = bin
 	}
 	jr, jw, _ := os.Pipe()
 	rr, rw, _ := os.Pipe()
 	cmd := exec.Command(exe, "worker")
 	cmd.ExtraFiles = []*os.File{jr, rw}
-	cmd.Env = append(os.Environ(), "GOMAXPROCS=2")
+	cmd.Env = append(append(os.Environ(), "GOMAXPROCS=2"), env...)
 	var eb bytes.Buffer
 	cmd.Stderr = &limitedWriter{buf: &eb, max: 16000}
 	cmd.Stdout = &limitedWriter{buf: &eb, max: 16000}
@@ -100,13 +108,15 @@ func (w *chainWorker) kill() {
 	_, _ = w.cmd.Process.Wait()
 }
 
-func newChainPool(n int) *chainPool {
+func newChainPool(n int) *chainPool { return newChainPoolWith(n, "", nil) }
+
+func newChainPoolWith(n int, bin string, env []string) *chainPool {
 	if n <= 0 {
 		n = runtime.GOMAXPROCS(0)
 	}
-	p := &chainPool{free: make(chan *chainWorker, n), n: n, recycle: 400}
+	p := &chainPool{free: make(chan *chainWorker, n), n: n, recycle: 400, bin: bin, env: env}
 	for i := 0; i < n; i++ {
-		w, err := startWorker()
+		w, err := startWorkerWith(bin, env)
 		if err != nil {
 			panic(err)
 		}
@@ -172,7 +182,7 @@ func (p *chainPool) Exec(job Job) JobResult {
 		}
 	}
 	if w == nil {
-		nw, err := startWorker()
+		nw, err := startWorkerWith(p.bin, p.env)
 		if err != nil {
 			panic(err)
 		}
